@@ -96,7 +96,7 @@ func decisionTable(start *ssa.BasicBlock, cfg dtConfig) []dtLeaf {
 	}
 	seen := map[key]bool{}
 	strip := func(v ssa.Value) ssa.Value {
-		if c, ok := v.(*ssa.Convert); ok {
+		if c, ok := v.(*ssa.Convert); ok && !narrowingConversion(c) {
 			return c.X
 		}
 		return v
